@@ -993,6 +993,11 @@ def catalogue(ctx, P):
         exprs += [_lst([]), _lst([gf(0)]), _lst([gf(2), gf(0)]), _lst([gf(0), gf(2)])]
         exprs += [("weak", o000), ("weak", dense), ("strong", o000), ("weak", K2), ("weak", o200)]
         exprs += [("mul", sc[1], o000), ("mul", o001, o000), ("add", ("pot", 0), ("pot", 1)), ("mul", o002, gf(0))]
+    # complex SPARSE discrete operators (a complex scalar times a sparse weak form stays sparse): their transposes and adjoints
+    # differ (seeded change C14-c dropped the conjugate of SparseDiscreteBoundaryOperator._adjoint; no basis element was a
+    # complex sparse operator, and adjoint(complex * weak(sparse)) has depth 3)
+    exprs += [("mul", sc[1], ("weak", o000)), ("weak", ("mul", sc[3], o001)),
+              ("add", ("weak", o000), ("mul", sc[1], ("weak", o000)))]
     if not ctx.thorough:
         # quick tier: one representative per (kind, spaces, class) among the plain leaves
         keep, seen = [], set()
